@@ -87,6 +87,60 @@ impl Family for FLimits {
     }
 }
 
+/// Loops that run longer than the value stack is high (256 by default): what an iteration leaves
+/// behind must not add up. Body statements: a new local, an assignment, and value-producing cards
+/// in statement position (whose value is discarded).
+pub struct FLongLoop;
+
+impl FLongLoop {
+    const NS: [i64; 8] = [100, 250, 253, 254, 255, 256, 300, 1000];
+    const BODIES: u64 = 6;
+}
+
+impl Family for FLongLoop {
+    fn name(&self) -> &'static str {
+        "F-long-loop"
+    }
+    fn len(&self) -> u64 {
+        // bodies 0-1 (no value left behind) with every n; the value-producing statements with 100 and 300
+        3 * 2 * (2 * Self::NS.len() as u64 + (Self::BODIES - 2) * 2)
+    }
+    fn case(&self, idx: u64) -> Module {
+        let kind = idx % 3;
+        let in_callee = (idx / 3) % 2 == 1;
+        let j = idx / 6;
+        let nn = Self::NS.len() as u64;
+        let (body_kind, n) = if j < 2 * nn { (j / nn, Self::NS[(j % nn) as usize]) } else { (2 + (j - 2 * nn) / 2, [100, 300][((j - 2 * nn) % 2) as usize]) };
+        let stmt = match body_kind {
+            0 => sv("fresh", add(rv("acc"), int(1))),
+            1 => sg("last", rv("acc")),
+            2 => int(7),
+            3 => call("f", vec![]),
+            4 => rv("acc"),
+            _ => native("echo", vec![rv("acc")]),
+        };
+        let body = C::Composite("body".into(), vec![stmt, sv("acc", add(rv("acc"), int(1)))]);
+        let mut cards = vec![sv("acc", int(0))];
+        match kind {
+            0 => cards.push(C::Repeat { n: b(int(n)), i: None, body: b(body) }),
+            1 => cards.push(C::While(b(bin(BinOp::Less, rv("acc"), int(n))), b(body))),
+            _ => {
+                cards.push(sv("t", C::CreateTable));
+                cards.push(C::Repeat { n: b(int(n)), i: Some("j".into()), body: b(C::Append(b(rv("j")), b(rv("t")))) });
+                cards.push(C::ForEach { i: None, k: None, v: Some("v".into()), iterable: b(rv("t")), body: b(body) });
+            }
+        }
+        cards.push(sg("total", rv("acc")));
+        let f = ("f", func(&[], vec![C::Return(b(int(1)))]));
+        if in_callee {
+            cards.push(C::Return(b(rv("acc"))));
+            module(vec![("main", func(&[], vec![sv("m", int(1)), sg("r", call("work", vec![])), sg("m_after", rv("m"))])), ("work", func(&[], cards)), f])
+        } else {
+            module(vec![("main", func(&[], cards)), f])
+        }
+    }
+}
+
 // ------------------------------------------------------------------------------------------------
 
 pub struct FCall;
